@@ -17,7 +17,7 @@ try:
     if s.count(old) != count:
         print("MUTATION ERROR: %d occurrences of old text (expected %d)" % (s.count(old), count)); sys.exit(3)
     open(p, "w").write(s.replace(old, new))
-    env = dict(os.environ, VERIF_REPO=d)
+    env = dict(os.environ, VERIF_REPO=d, VERIF_EVIDENCE_DIR=os.path.join(d, "evidence"), VERIF_REPLAY_DIR=os.path.join(d, "replays"))
     r = subprocess.run(["./check", prop, "--tier", tier], cwd="/verif", env=env, stdout=subprocess.PIPE, stderr=subprocess.STDOUT)
     out = r.stdout.decode()
     lines = out.strip().splitlines()
